@@ -201,8 +201,8 @@ def main(tier, seed):
     from engine import crosscheck
 
     crosscheck.attach(rep, seed)
-    rep.assumed_contract("core field functions are row-wise: PROVED here for magnet_cuboid_Bfield, dipole_Hfield, triangle_Bfield (real code under the shim, "
-                         "checks/c06_cores.py); ASSUMED for the cylinder cores, magnet_cylinder_segment_Hfield, current_circle_Hfield (cel/el3 convergence loops) "
+    rep.assumed_contract("core field functions are row-wise: PROVED here for magnet_cuboid_Bfield, dipole_Hfield, triangle_Bfield, check_chirality (real code under the shim, "
+                         "checks/c06_cores.py), also current_circle_Hfield, magnet_cylinder_axial_Bfield, magnet_cylinder_diametral_Hfield with cel / cel_iter / ellipe / ellipk as row-wise stubs, and point_inside; ASSUMED for magnet_cylinder_segment_Hfield (2000 lines of case analysis over el3) "
                          "and current_polyline_Hfield (obligations not decided by the solvers in time)")
     rep.assume("cel / el3 / ellipe / ellipk / KD-tree routines row-wise (bounded numeric stand-in only)")
     rep.explanation = "non-interference of batch-global values per wrapper; trimesh loop invariant; level-2 provenance is a bounded stand-in"
@@ -212,6 +212,8 @@ def main(tier, seed):
     from contracts.bhjm import CORES
 
     for cn in CORES:
+        if getattr(CORES[cn], "skip_rowwise", False):
+            continue  # non-interference of this core stays an assumed contract (stated above)
         tasks.append((f"core.{cn}", lambda r, cn=cn: c06_cores.rowwise(r, cn)))
     try:
         from checks import c06_trimesh
@@ -280,5 +282,5 @@ def main(tier, seed):
     # level-2 evaluation for all path lengths and pixel counts (checks/l2sym.py): element provenance: own source, own path index, own pixel
     from checks import l2sym
 
-    l2sym.report_fails(rep, l2sym.run(rep, tier, fams=['B', "B'", 'D'], stride={'B': 3, 'D': 2}))
+    l2sym.report_fails(rep, l2sym.run(rep, tier, fams=['B', "B'", 'D'], stride={'B': 3, 'D': 2}, kinds=("element", "shape", "safety")))
     return rep.finish()
